@@ -12,7 +12,8 @@ const (
 
 // target: 0 Twalk to a new fid, 1 Topen, 2 Tread, 3 Tattach, 4 Tclunk
 // flushop: 0 none, 1 FlushOp that does nothing, 2 FlushOp that calls req.Flush()
-// variant: 0 one flush; 1 two flushes of A; 2 flush of the flush; 3 flush of an unknown tag (no target sent)
+// variant: 0 one flush; 1 two flushes of A; 2 flush of the flush; 3 flush of an unknown tag (no target sent);
+//          4 a flush that names its own tag (no target sent)
 // hold: the implementation parks on A until the harness releases it after the flush was delivered
 func vxH07(target int, flushop int, variant int, hold bool, saved bool) {
 	kit := vxNewKit(false, flushop != 0, 8192, true)
@@ -57,10 +58,13 @@ func vxH07(target int, flushop int, variant int, hold bool, saved bool) {
 		atype = Tclunk
 	}
 	f := refEncode(Tflush, vxTagF, []refItem{refU16(vxTagA)}, true)
+	if variant == 4 {
+		f = refEncode(Tflush, vxTagF, []refItem{refU16(vxTagF)}, true)
+	}
 	nflush := 1
 	sameSeg := vxChoose("same-segment", 2) == 1
 	switch variant {
-	case 3:
+	case 3, 4:
 		nc.in <- f // nothing outstanding under tag A
 	default:
 		if sameSeg {
@@ -138,7 +142,7 @@ func vxH07(target int, flushop int, variant int, hold bool, saved bool) {
 			}
 		}
 	}
-	if variant != 3 && cf == 1 {
+	if variant < 3 && cf == 1 {
 		if ca == 1 {
 			vxAssert(pa < pf, "reply-to-flushed-request-precedes-Rflush")
 			vxAssert(nc.writes[pa][4] == atype+1 || nc.writes[pa][4] == Rerror, "reply-type")
@@ -179,7 +183,7 @@ func vxH07(target int, flushop int, variant int, hold bool, saved bool) {
 			vxReach("cancelled")
 		}
 	}
-	if variant == 3 {
+	if variant >= 3 {
 		vxReach("unknown-tag")
 	}
 }
